@@ -20,7 +20,9 @@ def baselines(n, seed):
         pk = gen.random_params(rng, iteration_limit=12, step_solver_type=gen.STEPSOLVERS[i % 4],
                                step_control_type=gen.CTLS[(i // 4) % 4], newton_type=gen.NEWTONS[(i // 2) % 4])
         if i % 3:
-            pk["report_rcond"] = True          # the condition estimator's solves are fault positions as well
+            pk["report_rcond"] = True
+        if i % 4 == 1:
+            pk["display_interval"] = None       # every row is displayed: the row's entries are evaluated at trial points too          # the condition estimator's solves are fault positions as well
         out.append({"prob": ps, "params": pk})
     return out
 
